@@ -52,7 +52,18 @@ def check_pvfw(ctx, fb, cfg, fn, ctr, H=H, opq=r"^rln::hashers::poseidon_hash$")
         return
     p = oks[0]
     # only the message-id range guard may condition the success path
-    extra = [(a, v) for a, v in p.conds() if not (a[0] == "b" and a[1][0] == "cmp" and set(a[1][2:]) == {F(W, "message_id"), F(W, "user_message_limit")})]
+    def shape_guard(a, v):
+        # rejecting guards on the shape of the Merkle path (equal vector lengths, binary direction values): they can only
+        # turn a request into Err; the formula on the success path is unchanged
+        t = a[1]
+        if a[0] != "b" or not isinstance(t, tuple):
+            return False
+        if t[0] == "bin" and t[1] in ("Ne", "Eq") and set(t[2:]) == {("len", F(W, "path_elements")), ("len", F(W, "identity_path_index"))}:
+            return (t[1] == "Ne") == (v is False)
+        if t[0] == "call" and t[1].endswith("Iterator>::any") or (t[0] == "call" and t[1].endswith("::any")):
+            return v is False and t[2][0] == F(W, "identity_path_index") and t[2][1][0] == "closure" and "merkle_path_shape_check" in t[2][1][1]
+        return False
+    extra = [(a, v) for a, v in p.conds() if not (a[0] == "b" and a[1][0] == "cmp" and set(a[1][2:]) == {F(W, "message_id"), F(W, "user_message_limit")}) and not shape_guard(a, v)]
     if extra:
         ctx.fail("R04-1", inst, "success path is conditioned on %s besides the message-id range guard" % [(sh(a, 100), v) for a, v in extra], loc(it))
         return
